@@ -853,7 +853,19 @@ func (in *Interp) get(s *State, f *Frame, v ssa.Value) Value {
 	return r
 }
 
+// package os is never initialised; its error sentinels are the io/fs ones
+var osErrAlias = map[string]string{"ErrNotExist": "ErrNotExist", "ErrExist": "ErrExist", "ErrPermission": "ErrPermission", "ErrClosed": "ErrClosed", "ErrInvalid": "ErrInvalid"}
+
 func (in *Interp) globalPtr(s *State, g *ssa.Global) *Ptr {
+	if g.Pkg != nil && g.Pkg.Pkg.Path() == "os" {
+		if a, ok := osErrAlias[g.Name()]; ok {
+			if fsPkg := in.prog.ImportedPackage("io/fs"); fsPkg != nil {
+				if fg, ok := fsPkg.Members[a].(*ssa.Global); ok {
+					return in.globalPtr(s, fg)
+				}
+			}
+		}
+	}
 	if g.Pkg != nil && !s.inited[g.Pkg] && !in.isBlackhole(g.Pkg.Pkg.Path()) && !noInit[g.Pkg.Pkg.Path()] && g.Pkg.Func("init") != nil {
 		if g.Name() != "init$guard" {
 			panic(needInit{g.Pkg})
@@ -873,7 +885,7 @@ var noInit = map[string]bool{
 	"runtime": true, "unicode": true, "os": true, "syscall": true, "reflect": true, "internal/reflectlite": true,
 	"time": true, "sync": true, "sync/atomic": true, "internal/godebug": true, "internal/poll": true,
 	"internal/bytealg": true, "internal/cpu": true, "math": true, "fmt": true, "log": true,
-	"context": true, "net": true, "math/rand": true, "math/rand/v2": true, "internal/oserror": true, "io/fs": true,
+	"context": true, "net": true, "math/rand": true, "math/rand/v2": true,
 }
 
 func (in *Interp) isBlackhole(path string) bool {
